@@ -51,6 +51,10 @@ def run(chk, tier):
     c05.records_and_payloads(chk, prog)
     c03.framing(chk, prog)
     c02.gate_buffer(chk, prog)
+    # a metadata frame that is turned away fails the whole conversion: the body decoders of the two decoded metadata types
+    from rules import c11, c12
+    c11.decoder(chk, prog)
+    c12.decoder(chk, prog)
     f31 = prog.fn(c02.FN)
     if f31 is None:
         chk.blind("VN", c02.FN, "type-31 decoder not found")
